@@ -22,7 +22,7 @@ pending_ack(), the predicate that also feeds BtpHdr::set_ack in prep_tx_data; in
 when over-full) is cut by its own free() test - >= 2 for the length prefix, >= payload.len() for the payload - with no other push
 between the test and the push.
 """
-CLAUSES = ['a: integrity checks precede every mutation of the windows', 'b: receive-path panic surface discharged', 'c: sending is gated by the peer window; the advertised window covers at most half of the buffer', 'd: the receive window is re-gained only when an ACK was sent; every ring-buffer push has a fresh free-space test']
+CLAUSES = ['a: integrity checks precede every mutation of the windows; a new SDU starts only after the previous is complete; the single-segment test agrees with the sender; the ACK deadline runs from the first unacknowledged segment; the last send slot is reserved by pending_ack(); directed wrapping ACK distance', 'b: receive-path panic surface discharged', 'c: sending is gated by the peer window; the advertised window covers at most half of the buffer', 'd: the receive window is re-gained only when an ACK was sent; every ring-buffer push has a fresh free-space test']
 NOT_DECIDED = ['exactly-once, in-order delivery between well-behaved ends', 'acknowledgement deadline timing', 'reassembly equality']
 MIN_OBLIGATIONS = {'q': 30, 'd': 30, 'r': 30}
 
